@@ -98,6 +98,21 @@ Proof.
   - exfalso. exact (resolve_checked_never_crashes cv trace name Hr).
 Qed.
 
+(* ... and when a SIGTERM interrupts the parent's wait on that path: status 1 at once, whatever the command does *)
+Theorem handshake_late_interrupted cv trace name kern g :
+  exists r, run_fork true cv trace name kern g HsLateIntr = Exited r /\ rr_exit r <> 0 /\ rr_diag r <> [] /\
+    (forall argv, resolve true cv trace name = RArgv argv ->
+       rr_argv r = Some argv /\ rr_diag r = [DGroupFail] /\ rr_exit r = 1).
+Proof.
+  unfold run_fork. destruct (resolve true cv trace name) as [argv|d|] eqn:Hr.
+  - eexists. split; [reflexivity|]. cbn [rr_exit rr_diag rr_argv].
+    split; [discriminate|]. split; [discriminate|]. intros a Ha. inversion Ha; subst a. repeat split.
+  - eexists. split; [reflexivity|]. cbn [rr_exit rr_diag].
+    split; [exact notfound_nonzero|]. split; [|intros a Ha; discriminate Ha].
+    unfold resolve in Hr. destruct (interp_steps _ _); [destruct (find_step _ _)|]; inversion Hr; discriminate.
+  - exfalso. exact (resolve_checked_never_crashes cv trace name Hr).
+Qed.
+
 (* REFUTED in that case: the command exited 0, the runner exits 1 *)
 Lemma handshake_masks_exit_zero cv trace name kern g argv :
   resolve true cv trace name = RArgv argv -> kern argv = KWait (w_exited 0) ->
@@ -140,6 +155,8 @@ Proof.
       exists r. split; [exact Hr|]. split; [intros _ _; exact Hz|]. split; [|exact Hn].
       intros H0. split; [reflexivity|]. split; [exact Hg|]. apply Hz in H0. destruct H0 as [a [Ha _]]. eauto.
   - destruct (handshake_late_nonzero cv trace name kern g) as [r [Hr [Hne [Hd _]]]].
+    exists r. split; [exact Hr|]. split; [discriminate|]. split; [contradiction|]. intros _. exact Hd.
+  - destruct (handshake_late_interrupted cv trace name kern g) as [r [Hr [Hne [Hd _]]]].
     exists r. split; [exact Hr|]. split; [discriminate|]. split; [contradiction|]. intros _. exact Hd.
 Qed.
 
@@ -392,4 +409,174 @@ Proof.
   - split; auto.
   - split; [discriminate|]. intros H. rewrite Hm in H. discriminate H.
   - split; [discriminate|]. intros H. destruct Hm as [d Hd]. congruence.
+Qed.
+
+(* ---------------------------------------------------------------- the empty vector, literally *)
+Local Open Scope N_scope.
+(* step "s" command { "${t}" } with a variable t that is empty *)
+Definition empty_wit_cv : cfgview := mkcfg [([116], [])] [] [mkstep [115] (Command [[36; 123; 116; 125]])] None.
+Definition empty_wit_name : bytes := [115].
+Local Open Scope Z_scope.
+
+(* what the runner reports for the empty vector, by what execvp(NULL, ...) does in the child: it returns -1 (the
+   child leaves through err(1): status 1, two diagnostics) or the child dies from signal s (status 128+s, one
+   diagnostic that names no reason) *)
+Theorem empty_argv_status cv trace name kern g :
+  resolve true cv trace name = RArgv [] -> g <> sigalrm ->
+  (kern [] = KNoExec -> run_with true cv trace name kern g = Exited (mkrun (Some []) 1 [DExec; DExited 1])) /\
+  (forall s core, 1 <= s <= 126 -> kern [] = KWait (w_signaled s core) ->
+     run_with true cv trace name kern g = Exited (mkrun (Some []) (128 + s) [DExited (128 + s)])).
+Proof.
+  intros Hr Hg. split.
+  - intros Hk. unfold run_with. rewrite Hr, exit_of_wait_eq, Hk. cbn [child_status].
+    change (w_exitcode 1) with (w_exited 1). rewrite exit_spec_exited by (assumption || lia). reflexivity.
+  - intros s core Hs Hk. unfold run_with. rewrite Hr, exit_of_wait_eq, Hk. cbn [child_status].
+    rewrite exit_spec_signaled by assumption.
+    destruct (Z.eqb_spec (128 + s) 0); [lia|reflexivity].
+Qed.
+
+(* THE LITERAL READING of "a step that cannot be started ... yields a non-zero status with a diagnostic RATHER THAN
+   A CRASH" for the empty vector: no process of robsd-exec dies from a signal, i.e. the status is not 128+N *)
+Definition empty_argv_no_crash : Prop :=
+  forall cv trace name kern g, resolve true cv trace name = RArgv [] -> null_exec_fails kern -> g <> sigalrm ->
+    exists r, run_with true cv trace name kern g = Exited r /\ rr_exit r < 128.
+
+(* REFUTED by what glibc does (the child dereferences the NULL name: SIGSEGV): status 139 *)
+Lemma empty_argv_no_crash_refuted : ~ empty_argv_no_crash.
+Proof.
+  intros H.
+  assert (Hr : resolve true empty_wit_cv false empty_wit_name = RArgv []) by (vm_compute; reflexivity).
+  destruct (H empty_wit_cv false empty_wit_name (fun _ => KWait (w_signaled 11 false)) 0 Hr) as [r [Hrun Hlt]].
+  - right. exists 11, false. split; [lia|reflexivity].
+  - unfold sigalrm. discriminate.
+  - destruct (empty_argv_status empty_wit_cv false empty_wit_name (fun _ => KWait (w_signaled 11 false)) 0 Hr) as [_ Hs];
+      [unfold sigalrm; discriminate|].
+    rewrite (Hs 11 false ltac:(lia) eq_refl) in Hrun. inversion Hrun; subst r. cbn [rr_exit] in Hlt. lia.
+Qed.
+
+(* it holds on a platform whose execvp(NULL, ...) returns -1 *)
+Lemma empty_argv_no_crash_partial cv trace name kern g :
+  resolve true cv trace name = RArgv [] -> kern [] = KNoExec -> g <> sigalrm ->
+  exists r, run_with true cv trace name kern g = Exited r /\ rr_exit r = 1 /\ In DExec (rr_diag r).
+Proof.
+  intros Hr Hk Hg. destruct (empty_argv_status cv trace name kern g Hr Hg) as [H _].
+  eexists. split; [exact (H Hk)|]. split; [reflexivity|now left].
+Qed.
+
+(* ---------------------------------------------------------------- step_exec as a whole: the empty-command check *)
+Local Open Scope Z_scope.
+
+(* for every resolution other than the empty vector step_exec is the run proper *)
+Lemma step_exec_run_nonempty echk checked cv trace name kern g hs :
+  resolve checked cv trace name <> RArgv [] ->
+  step_exec_run echk checked cv trace name kern g hs = run_fork checked cv trace name kern g hs.
+Proof.
+  intros H. unfold step_exec_run. destruct (resolve checked cv trace name) as [[|a l]|d|]; try reflexivity.
+  now contradiction H.
+Qed.
+
+(* without the check (the source before /repo 8e76449) it always is *)
+Lemma step_exec_run_unchecked checked cv trace name kern g hs :
+  step_exec_run false checked cv trace name kern g hs = run_fork checked cv trace name kern g hs.
+Proof. unfold step_exec_run. destruct (resolve checked cv trace name) as [[|a l]|d|]; reflexivity. Qed.
+
+(* with the check the empty vector is refused before anything is forked: whatever execvp(NULL, ...) would do on
+   the platform, whatever signal arrives, whatever the handshake *)
+Lemma empty_command_refused checked cv trace name kern g hs :
+  resolve checked cv trace name = RArgv [] ->
+  step_exec_run true checked cv trace name kern g hs = Exited (mkrun None empty_exit [DEmptyCmd]).
+Proof. intros H. unfold step_exec_run. now rewrite H. Qed.
+
+(* THE PROPERTY'S CLAUSE for a command of which nothing is left: nothing is executed, the status is non-zero and
+   below 128 (no process of robsd-exec died from a signal), there is a diagnostic - for every kernel function *)
+Definition empty_command_is_error (echk : bool) : Prop :=
+  forall checked cv trace name kern g hs, resolve checked cv trace name = RArgv [] ->
+    exists r, step_exec_run echk checked cv trace name kern g hs = Exited r /\
+      rr_argv r = None /\ 0 < rr_exit r < 128 /\ rr_diag r = [DEmptyCmd].
+
+Lemma empty_command_if_checked :
+  empty_command_checked = true -> (0 <? empty_exit) && (empty_exit <? 128) = true ->
+  empty_command_is_error empty_command_checked.
+Proof.
+  intros -> Hx checked cv trace name kern g hs Hr. rewrite (empty_command_refused _ _ _ _ kern g hs Hr).
+  apply andb_prop in Hx. destruct Hx as [H1 H2]. apply Z.ltb_lt in H1. apply Z.ltb_lt in H2.
+  eexists. split; [reflexivity|]. cbn [rr_argv rr_exit rr_diag]. repeat split; assumption.
+Qed.
+
+(* HISTORICAL: without the check the clause fails on a platform whose execvp(NULL, ...) kills the caller *)
+Lemma empty_command_unchecked_refuted : ~ empty_command_is_error false.
+Proof.
+  intros H.
+  assert (Hr : resolve true empty_wit_cv false empty_wit_name = RArgv []) by (vm_compute; reflexivity).
+  destruct (H true empty_wit_cv false empty_wit_name (fun _ => KWait (w_signaled 11 false)) 0 HsOk Hr) as [r [Hrun [_ [[_ Hlt] _]]]].
+  rewrite step_exec_run_unchecked, run_fork_ok in Hrun.
+  destruct (empty_argv_status empty_wit_cv false empty_wit_name (fun _ => KWait (w_signaled 11 false)) 0 Hr) as [_ Hs];
+    [unfold sigalrm; discriminate|].
+  rewrite (Hs 11 false ltac:(lia) eq_refl) in Hrun. inversion Hrun; subst r. cbn [rr_exit] in Hlt. lia.
+Qed.
+
+(* the oracle accepts every run of step_exec with the check - no assumption about execvp(NULL, ...) is left *)
+Theorem oracle_accepts_step_exec cv trace name kern g kx :
+  0 < empty_exit ->
+  (forall argv, resolve true cv trace name = RArgv argv -> argv <> [] -> arranged kx kern g argv) ->
+  exists r, step_exec_run true true cv trace name kern g HsOk = Exited r /\
+            spec_ok_step cv trace name kx (obs_of kern r) = true.
+Proof.
+  intros Hpos Harr. destruct (resolve true cv trace name) as [[|a0 l]|d|] eqn:Hr.
+  - rewrite (empty_command_refused true cv trace name kern g HsOk Hr). eexists. split; [reflexivity|].
+    unfold spec_ok_step. rewrite (proj2 (expect_step_model true cv trace name []) Hr).
+    unfold failure_ok, obs_of. cbn [rr_argv rr_exit rr_diag ob_argv ob_exit ob_diag opt_argv_eqb andb].
+    apply Z.ltb_lt in Hpos. now rewrite Hpos.
+  - set (kern' := fun a : list bytes => match a with [] => KNoExec | _ => kern a end).
+    assert (Hnull : null_exec_fails kern') by (left; reflexivity).
+    assert (Harr' : forall argv, resolve true cv trace name = RArgv argv -> argv <> [] -> arranged kx kern' g argv).
+    { intros argv Ha Hne. rewrite Hr in Ha. specialize (Harr argv Ha Hne). destruct argv as [|x y]; [contradiction|].
+      unfold kern'. exact Harr. }
+    destruct (oracle_accepts_model cv trace name kern' g kx Hnull Harr') as [r [Hrun Hok]].
+    rewrite step_exec_run_nonempty by (rewrite Hr; discriminate). rewrite run_fork_ok.
+    assert (Heq : run_with true cv trace name kern g = run_with true cv trace name kern' g).
+    { unfold run_with. rewrite Hr. reflexivity. }
+    rewrite Heq. exists r. split; [exact Hrun|].
+    assert (Ho : obs_of kern r = obs_of kern' r).
+    { unfold run_with in Hrun. rewrite Hr in Hrun. unfold kern' in Hrun at 1.
+      destruct (exit_of_wait (child_status (kern (a0 :: l))) g); inversion Hrun; subst r. reflexivity. }
+    now rewrite Ho.
+  - rewrite step_exec_run_nonempty by (rewrite Hr; discriminate). rewrite run_fork_ok.
+    assert (Hnull : null_exec_fails (fun _ => KNoExec)) by (left; reflexivity).
+    destruct (oracle_accepts_model cv trace name (fun _ => KNoExec) g kx Hnull) as [r [Hrun Hok]].
+    { intros argv Ha. rewrite Hr in Ha. discriminate Ha. }
+    unfold run_with in *. rewrite Hr in *. exists r. split; [exact Hrun|].
+    inversion Hrun; subst r. exact Hok.
+  - exfalso. exact (resolve_checked_never_crashes cv trace name Hr).
+Qed.
+
+(* ---------------------------------------------------------------- the hook oracle accepts the model *)
+(* what the harness observes of a run of robsd-hook: nothing and status 0; the command in its place (its vector,
+   and as status what the harness arranged for the command: code c, or -s when it dies from signal s); or a
+   failure with status e and a diagnostic *)
+Definition hobs_of (h : houtcome) (kx : kexpect) : obs :=
+  match h with
+  | HNoop => mkobs None 0 false
+  | HExec argv => mkobs (Some argv) (match kx with KxExit c => c | KxSignal s => - s | _ => 0 end) false
+  | HFail e _ => mkobs None e true
+  end.
+
+(* the arrangement: execvp succeeds exactly when the harness did not make the command unexecutable, and a hook is
+   never arranged to outlive a timeout (robsd-hook has none) *)
+Definition harranged (kx : kexpect) (execok : list bytes -> bool) : Prop :=
+  kx <> KxTimeout /\ forall argv, execok argv = match kx with KxNoExec => false | _ => true end.
+
+Theorem oracle_accepts_hook m cv vs execok kx :
+  harranged kx execok ->
+  spec_ok_hook m cv vs kx (hobs_of (hook_run m cv vs execok) kx) = true.
+Proof.
+  intros [Hnt Hex]. unfold spec_ok_hook. pose proof (expect_hook_model m cv vs execok) as Hm.
+  destruct (expect_hook m cv vs) as [|argv|].
+  - rewrite Hm. reflexivity.
+  - rewrite Hm, (Hex argv). destruct kx as [|c|s|]; cbn [hobs_of failure_ok ob_argv ob_exit ob_diag opt_argv_eqb andb].
+    + reflexivity.
+    + now rewrite argv_eqb_refl, Z.eqb_refl.
+    + now rewrite argv_eqb_refl, Z.eqb_refl.
+    + now contradiction Hnt.
+  - destruct Hm as [d ->]. reflexivity.
 Qed.
